@@ -43,6 +43,18 @@ def bsig(r):
     return s
 
 
+CSV = {'quick': 'gen/MC_C03csv_q.cfg', 'thorough': 'gen/MC_C03csv_t.cfg'}
+
+
+def csig(r):
+    c = r['case'] if isinstance(r.get('case'), dict) else {}
+    s = {'csv': bytes(c.get('csv', [])).decode('latin1')}
+    for k in ('entry', 'opts', 'delivery', 'what'):
+        if k in r:
+            s[k] = r[k]
+    return s
+
+
 def gens(tier):
     return [vf.tlc_gen('gen/MC_C03', c, timeout=2400) for c in CFG[tier]]
 
@@ -50,6 +62,8 @@ def gens(tier):
 def setup():
     vf.build('c03', ['c03.cpp'])
     vf.build('c03bin', ['c03bin.cpp'])
+    vf.build('c03csv', ['c03csv.cpp'])
+    vf.tlc_gen('gen/MC_C03csv', CSV['quick'], timeout=900)
     gens('quick')
 
 
@@ -64,6 +78,11 @@ def run(tier):
     tb = vf.g_replay(rep, bbin, gb, bsig)
     totals['deliveries'] = totals.get('deliveries', 0) + tb.get('deliveries', 0)
     totals['cases'] = totals.get('cases', 0) + tb.get('cases', 0)
+    # CSV text: every string over the characters the CSV reader distinguishes x 6 option sets x every delivery
+    tc = vf.g_replay(rep, vf.build('c03csv', ['c03csv.cpp']), [vf.tlc_gen('gen/MC_C03csv', CSV[tier], timeout=900)], csig)
+    totals['deliveries'] += tc.get('checks', 0)
+    totals['cases'] += tc.get('cases', 0)
+    rep.coverage['csv_texts'] = tc.get('cases', 0)
     cov = rep.coverage
     cov['traces_validated_against_impl'] = totals.get('deliveries', 0)
     cov['evaluations'] = totals.get('deliveries', 0)
@@ -73,10 +92,12 @@ def run(tier):
                    'whole tokens, as enumerated by TLC from spec/JsonText.tla; deliveries per text and option set = all 2^(n-1) compositions '
                    'into chunks (n<=7; single splits, uniform sizes and seeded random splits beyond) for two push-parser protocols, '
                    'stream_source buffer sizes 1..n+1 for reader and cursor, iterator source, string/filtered cursor, read_to (outer, inner), '
-                   'staj array/object iterators; binary formats: every byte string of the listed C07 spaces x 23 deliveries; a case is non-trivial = one distinct input')
+                   'staj array/object iterators; binary formats: every byte string of the listed C07 spaces x 23 deliveries; CSV: every string of up to 6 (thorough 7) characters over {letter, digit, comma, quote, LF, CR, space} (thorough + # ;) '
+                   'x 6 option sets (mappings, header handling, trimming, comments, other delimiter / quote, column names, lossless numbers) x stream buffer sizes 1..n+1 for reader and cursor, iterator source, '
+                   'every composition into chunks for the push parser, each compared with the contiguous reader / cursor; a case is non-trivial = one distinct input')
     cov['bounds'] = {c: open(os.path.join(vf.SPEC, c)).read().split('CONSTANTS')[1].split()[:6] for c in CFG[tier]}
     cov['samples'] = vf.sample_lines(g[1][0], 2)
-    rep.assumptions += ['binary formats: differential only (bytes source vs stream sources with buffer sizes 1..9 and default, iterator source, cursor) over the C07 input spaces; CSV is not covered here',
+    rep.assumptions += ['binary formats: differential only (bytes source vs stream sources with buffer sizes 1..9 and default, iterator source, cursor) over the C07 input spaces; CSV likewise differential (no verdict predicted)',
                         'binary cursors are not compared on maps whose keys are containers (no documented event image)',
                         'cursors are not compared on inputs that contain no value at all (empty / whitespace / comment only): a cursor reports those as an empty stream',
                         'semantic tags of string events (noesc hint) are not observables']
@@ -85,12 +106,18 @@ def run(tier):
 
 def replay(path):
     d = json.load(open(path))
-    binary = vf.build('c03', ['c03.cpp'])
+    case = d['case'] if isinstance(d.get('case'), dict) else {}
+    if 'csv' in case:
+        binary = vf.build('c03csv', ['c03csv.cpp'])
+    elif 'b' in case and 'f' in case:
+        binary = vf.build('c03bin', ['c03bin.cpp'])
+    else:
+        binary = vf.build('c03', ['c03.cpp'])
     recs = vf.run_one(binary, d['case'])
     bad = [r for r in recs if r.get('k') != 'stat']
     for r in bad:
         print(json.dumps({k: v for k, v in r.items() if k != 'case'}))
-    print('text=%r' % text_of(d['case']))
+    print('text=%r' % (text_of(d['case']) if 't' in case else json.dumps(case)[:300]))
     if bad:
         print('VIOLATION property=%s replay=%s' % (PROP, path))
         return 1
